@@ -140,4 +140,99 @@ Section RunFold.
     rewrite <- H; [|repeat split; reflexivity].
     unfold finish. destruct (halted C X _); reflexivity.
   Qed.
+
+  (** * the lines returned *)
+  (** the vote the match part casts on line [nl] when the fold has reached state [s] *)
+  Definition vote_at (s : rs X) (nl : Z * line C) : bool :=
+    snd (m (mkRs X (fst nl) (scan_count X s + 1) (match_count X s) (match_count X s) 0 false false (x X s)) (snd nl)).
+  (** default return mode: the lines voted for; return-mode no-matches: the others *)
+  Definition ret_step (sa : rs X * list (line C)) (nl : Z * line C) : rs X * list (line C) :=
+    (line_step (fst sa) nl, if xorb (vote_at (fst sa) nl) (cwnm c) then snd sa ++ [snd nl] else snd sa).
+
+  Lemma consider_ret a f n l : agree a f ->
+    ev_returned (snd (consider C X m c (track X a n) l)) = if want C sh (n, l) then xorb (vote_at f (n, l)) (cwnm c) else false.
+  Proof.
+    intros (Hc & Ha & Hs & Hf). unfold consider, want, nonblank, vote_at. cbn [fst snd track pln].
+    unfold core in Hc. injection Hc as Hx Hsc Hmc.
+    destruct (oeqb (end_line c) n && is_nil l) eqn:E1.
+    - apply andb_prop in E1. destruct E1 as [_ E1]. rewrite E1. rewrite andb_false_r.
+      destruct (m (set_frozen X (track X a n)) l). reflexivity.
+    - destruct (is_nil l) eqn:E2; [rewrite andb_false_r; reflexivity|].
+      cbn [negb]. rewrite andb_true_r. rewrite <- (includes_is_denotes sh c Hwf Hparse n).
+      destruct (includes (scanner c) n) eqn:E3; [|reflexivity].
+      cbn [adv track]. rewrite Ha. cbn [Z.ltb Z.compare]. cbn [scan_count match_count stopped frozen x track].
+      rewrite ?Hs, ?Hf, ?Ha, ?Hx, ?Hsc, ?Hmc.
+      destruct (m (mkRs X n (scan_count X f + 1) (match_count X f) (match_count X f) 0 false false (x X f)) l) as [s2 v]. cbn [snd].
+      destruct (is_last (q_scan c) (scanner c) (end_line c) n); destruct v; cbn [snd ev_returned]; destruct (cwnm c); reflexivity.
+  Qed.
+
+  Lemma step_returned (a : ls C X) n l : halted C X a = false -> budget C X a = None ->
+    returned C X (step C X m c a (n, l)) =
+      if ev_returned (snd (consider C X m c (track X (st C X a) n) l)) then returned C X a ++ [l] else returned C X a.
+  Proof.
+    intros Hh Hb. unfold step. rewrite Hh, Hb.
+    destruct (consider C X m c (track X (st C X a) n) l) as [s' e]. cbn [snd].
+    destruct (ev_returned e); cbn; destruct (stopped X s'); reflexivity.
+  Qed.
+
+  Lemma fold_core_ret : forall (recs : list (line C)) n (a : ls C X) f,
+    n + Z.of_nat (length recs) - 1 = E -> halted C X a = false -> budget C X a = None -> agree (st C X a) f ->
+    let r := fold_left (step C X m c) (number n recs) a in
+    let F := fold_left ret_step (filter (want C sh) (number n recs)) (f, returned C X a) in
+    core (st C X r) = core (fst F) /\ returned C X r = snd F.
+  Proof.
+    induction recs as [|l recs IH]; intros n a f Hlen Hh Hb Hag.
+    - cbn. destruct Hag as [Hc _]. split; [exact Hc|reflexivity].
+    - cbn [number fold_left filter]. cbn zeta.
+      pose proof (consider_fold (st C X a) f n l Hag) as [Hw Hnw]. cbn zeta in Hw, Hnw.
+      pose proof (consider_ret (st C X a) f n l Hag) as Hret.
+      pose proof (step_returned a n l Hh Hb) as Hsr. rewrite Hret in Hsr.
+      pose proof (step_core a n l Hh Hb) as (S1 & S2 & S3 & S4 & S5 & S6). cbn zeta in S1, S2, S3, S4, S5, S6.
+      destruct Hag as (Hc & Ha & Hs & Hf).
+      pose proof (consider_quiet C X m c (track X (st C X a) n) l Hquiet) as Hq.
+      cbn [adv stopped track] in Hq. specialize (Hq Ha Hs). cbn zeta in Hq. destruct Hq as (_ & _ & _ & _ & Hstop).
+      set (s' := fst (consider C X m c (track X (st C X a) n) l)) in *.
+      set (a' := step C X m c a (n, l)) in *.
+      cbn [length] in Hlen.
+      destruct (want C sh (n, l)) eqn:Ew.
+      + destruct (Hw eq_refl) as (W1 & W2 & W3). cbn [fold_left].
+        assert (Hrs: ret_step (f, returned C X a) (n, l) = (line_step f (n, l), returned C X a')).
+        { unfold ret_step. cbn [fst snd]. rewrite Hsr. reflexivity. }
+        rewrite Hrs.
+        destruct (stopped X s') eqn:Es.
+        * rewrite (fold_halted C X m c _ a' S4).
+          destruct (Hstop eq_refl) as (_ & Hlast). rewrite Hq_scan, Hend in Hlast.
+          rewrite (rest_not_wanted C sh c E Hwf Hparse n Hlast recs (n + 1)); [|lia|lia].
+          cbn [fold_left fst snd]. split; [rewrite S1; exact W1|reflexivity].
+        * apply IH; [lia|rewrite S4; reflexivity|exact S5|].
+          split; [rewrite S1; exact W1|]. split; [rewrite S2; exact W2|]. split; [rewrite S3; reflexivity|].
+          rewrite (S6 eq_refl), W3. rewrite Hkeepfrozen. reflexivity.
+      + destruct (Hnw eq_refl) as (N1 & N2 & N3 & N4).
+        assert (Hra: returned C X a' = returned C X a) by exact Hsr.
+        destruct (oeqb (end_line c) n && is_nil l) eqn:Eb.
+        * assert (Hn: n = E).
+          { apply andb_prop in Eb. destruct Eb as [Eb _]. rewrite Hend in Eb. cbn in Eb. apply Z.eqb_eq in Eb. lia. }
+          assert (recs = []) by (destruct recs; [reflexivity|cbn [length] in Hlen; lia]). subst recs.
+          cbn. split; [rewrite S1; exact N1|exact Hra].
+        * rewrite <- Hra. apply IH; [lia|rewrite S4; exact N3|exact S5|].
+          split; [rewrite S1; exact N1|]. split; [rewrite S2; exact N2|]. split; [rewrite S3; exact N3|].
+          rewrite (S6 N3). apply N4. reflexivity.
+  Qed.
+
+  (** the run: state, counters and the lines returned *)
+  Theorem run_returns_fold (recs : list (line C)) (x0 : X) :
+    end_of C recs = Some E -> will_run c = true ->
+    let r := run_from C X m c (rs0 X x0) None recs in
+    let F := fold_left ret_step (filter (want C sh) (number 0 recs)) (rs0 X x0, []) in
+    core (st C X r) = core (fst F) /\ returned C X r = snd F.
+  Proof.
+    intros He Hw. cbn zeta. unfold run_from. rewrite Hw.
+    assert (Hlen: 0 + Z.of_nat (length recs) - 1 = E).
+    { unfold end_of in He. destruct recs as [|l0 recs0]; [discriminate|].
+      assert (He2: Z.of_nat (length (l0 :: recs0)) - 1 = E) by congruence. lia. }
+    pose proof (fold_core_ret recs 0 (mkLs C X (rs0 X x0) [] [] [] false false None) (rs0 X x0) Hlen eq_refl eq_refl) as H.
+    cbn zeta in H. destruct H as [H1 H2]; [repeat split; reflexivity|].
+    cbn [returned] in H1, H2. rewrite <- H1, <- H2.
+    unfold finish. destruct (halted C X _); split; reflexivity.
+  Qed.
 End RunFold.
